@@ -1053,7 +1053,8 @@ func HandleTranOldPostNews(cc *hotline.ClientConn, t *hotline.Transaction) (res 
 
 	newsTemplate := hotline.NewsTemplate
 	if cc.Server.Config.NewsDelimiter != "" {
-		newsTemplate = cc.Server.Config.NewsDelimiter
+		// The option replaces the line that separates two posts, not the header and the text of the post.
+		newsTemplate = strings.TrimRight(hotline.NewsTemplate, "_") + strings.ReplaceAll(cc.Server.Config.NewsDelimiter, "%", "%%")
 	}
 
 	newsPost := fmt.Sprintf(newsTemplate+"\r", cc.UserName, time.Now().Format(newsDateTemplate), t.GetField(hotline.FieldData).Data)
